@@ -187,6 +187,12 @@ func evalPath(node *jparse.PathNode, data reflect.Value, env *environment) (refl
 		_, isVar = step0.Expr.(*jparse.VariableNode)
 	}
 
+	// An array taken from the input can be wrapped in an
+	// interface value. Unwrap it before its items are visited.
+	if jtypes.IsArray(data) {
+		data = jtypes.Resolve(data)
+	}
+
 	output := data
 	if isVar || !jtypes.IsArray(data) {
 		output = reflect.MakeSlice(typeInterfaceSlice, 1, 1)
@@ -672,6 +678,9 @@ func applyFilter(filter jparse.Node, items reflect.Value, env *environment) (ref
 
 		switch {
 		case jtypes.IsArrayOf(res, jtypes.IsNumber):
+			// An index array taken from the input can be wrapped
+			// in an interface value. Unwrap it to read its items.
+			res = jtypes.Resolve(res)
 			for j, N := 0, res.Len(); j < N; j++ {
 
 				n, _ := jtypes.AsNumber(res.Index(j))
